@@ -175,10 +175,13 @@ def _check_listing(case):
     lines = (["time,pitch,intensity"] if hdr else []) + list(rows)
     for pos in sorted(blanks, reverse=True):
         lines.insert(pos, "")
-    with open(fn, "w") as fd:
-        fd.write("\n".join(lines) + "\n")
+    ending = case[4] if len(case) > 4 else "\n"    # how the LAST line ends: newline, nothing (the file stops after the last value), CRLF
+    with open(fn, "w", newline="") as fd:
+        fd.write("\n".join(lines) + ending)
     if blanks:
         hdr = f"{hdr} with empty lines at {blanks}"
+    if ending != "\n":
+        hdr = f"{hdr}, last line ending {ending!r}"
     st, r, _ = call(pi.loadTimeSeriesData, fn, uv)
     if st == "exc":
         return 1, "X", None, [Viol("loadTimeSeriesData-raised", f"rows {rows} header={hdr} undefinedValue={uv}: {r!r}")]
@@ -274,6 +277,13 @@ def parts(tier):
             for hdr in (True, False):
                 for uv in (None, 0):
                     yield (hdr, tuple(ROWS[(i * 3) % len(ROWS)] for i in range(n)), uv)
+        # the last line of the file without a line terminator (a listing written with "\n".join(rows)), and with CRLF
+        for hdr in (True, False):
+            for k in (1, 2):
+                for rows in itertools.product(ROWS, repeat=k):
+                    for uv in (None, 0):
+                        for ending in ("", "\r\n"):
+                            yield (hdr, rows, uv, (), ending)
         # empty lines (which the loader ignores) before, between and after the header and the rows
         for hdr in (True, False):
             for k in (1, 2):
